@@ -58,6 +58,17 @@ pub(super) fn generate_chain_extension_method(
         })
         .collect();
 
+    // The same arguments as fields of the parameters struct.
+    let struct_fields: Vec<_> = arg_infos
+        .iter()
+        .map(|info| {
+            let name = info.name;
+            let ty = &info.ty_for_params;
+            let serde_attrs = super::utils::param_field_serde_attrs(info);
+            quote! { #serde_attrs #name: #ty }
+        })
+        .collect();
+
     if arg_infos.is_empty() {
         generate_no_params_method(&method_ident, &method_path, crate_path)
     } else {
@@ -67,6 +78,7 @@ pub(super) fn generate_chain_extension_method(
             generics,
             combined_where_clause,
             param_fields,
+            struct_fields,
             arg_names,
             &method_generic_params,
             &method_where_clause,
@@ -111,8 +123,8 @@ fn parse_method_arguments<'a>(
                 name,
                 ty_for_params,
                 has_lifetime,
-                is_optional: false,
-                serialized_name: None,
+                is_optional: crate::utils::is_option_type(ty),
+                serialized_name: crate::utils::parse_zlink_string_attr(&pat_type.attrs, "rename"),
             }))
         })
         .collect()
@@ -195,6 +207,7 @@ fn generate_with_params_method(
     generics: TokenStream,
     combined_where_clause: TokenStream,
     param_fields: Vec<TokenStream>,
+    struct_fields: Vec<TokenStream>,
     arg_names: Vec<&syn::Ident>,
     method_generic_params: &syn::punctuated::Punctuated<syn::GenericParam, syn::Token![,]>,
     method_where_clause: &Option<syn::WhereClause>,
@@ -253,7 +266,7 @@ fn generate_with_params_method(
                 struct #params_struct_name #generics
                 #struct_where
                 {
-                    #(#param_fields,)*
+                    #(#struct_fields,)*
                 }
 
                 #[derive(::serde::Serialize, ::core::fmt::Debug)]
